@@ -310,6 +310,9 @@ def check_consumer(ctx, rule, f, work, work_name, forward):
     for a in facts:
         if a[0] == 'def' and a[2] == U(gets[0]):
             got = a[1]
+    if got is None and any(gets[0] is x for a in works[0].args for x in ast.walk(a)):
+        got = U(gets[0])       # the fetched item is passed on in place: work(queue.get())
+        wargs = [got if any(gets[0] is x for x in ast.walk(a)) else U(a) for a in works[0].args]
     if got is None or got not in wargs:
         ctx.fail(rule, f, works[0], '%s does not consume the item fetched by this iteration\'s get()' % work_name)
     else:
@@ -321,6 +324,8 @@ def check_consumer(ctx, rule, f, work, work_name, forward):
             if a[0] == 'def' and a[2] == U(works[0]):
                 res = a[1]
         pargs = [U(a) for a in puts[0].args]
+        if res is None and any(works[0] is a for a in puts[0].args):
+            res = U(works[0])   # the result is forwarded in place: put(work(item))
         if res is None or res not in pargs:
             ctx.fail(rule, f, puts[0], 'put() does not forward the result of %s of this iteration' % work_name)
         else:
